@@ -262,6 +262,17 @@ def oracle(line, go):
             if mg.contains(t, ("TIME",)):
                 return None
             return represents(t, g, v)
+        if cmd == "unmarshal_into":
+            # a pre-populated target: where the Ion value determines the whole result (a slice of plain scalars receiving
+            # a list or sexp) the stored value must represent the Ion value, whatever the target held before
+            t, j = parse_ty(ts, 2)
+            _, j2 = parse_gv(ts, j)
+            v, _ = parse_iv(ts, j2)
+            if t[0] == "L" and not mg.contains(t, ("ST", "M", "I", "P", "TIME", "L2")) and t[1][0] not in ("L", "A") \
+                    and v[1][0] in ("list", "sexp"):
+                g, _ = parse_gv(go.split(" "), 1)
+                return represents(t, g, v)
+            return None
         if cmd == "decode_any":
             v, _ = parse_iv(ts, 2)
             g, _ = parse_gv(go.split(" "), 1)
@@ -427,7 +438,7 @@ def gen_lines(ctx):
     decl = mg.declared_types()
     rows = mg.ion_rows(rng)
     targets = mg.SCALAR_TYPES + mg.SPECIAL_TYPES + mg.CONTAINER_TYPES + decl
-    rand_types = mg.usable_types([mg.gen_type(rng, 3) for _ in range(ctx.scale(60, 600))])
+    rand_types = mg.usable_types([mg.gen_type(rng, 3) for _ in range(ctx.scale(60, 600))] + mg.embed_chains(rng, ctx.scale(24, 200)))
     lines = []
     for t in targets:
         tt = " ".join(ty_tokens(t))
@@ -469,6 +480,8 @@ def gen_lines(ctx):
             continue
         if ln.split(" ")[1:2] == ["b"]:
             ln = ln.replace("F9221120237041090561", "F9221120237041090560")   # the binary writer emits the canonical NaN
+        elif ln.split(" ")[1:2] == ["t"]:
+            ln = ln.replace("F9221120237041090560", "F9221120237041090561")   # text has one NaN, `nan`, read as math.NaN()
         if ln not in seen:
             seen.add(ln)
             out.append(ln)
